@@ -9,17 +9,20 @@ import (
 	"fmt"
 	"math/rand"
 	"time"
+	"unicode/utf8"
 
 	"github.com/pyroscope-io/pyroscope/pkg/storage/segment"
 	"verifharness/lib"
 	"verifharness/lib/segu"
 )
 
+// Metadata strings are byte slices (base64 in the input JSON): they may hold invalid UTF-8, which a
+// JSON string could not carry faithfully into a replay.
 type Meta struct {
-	Spy   string `json:"spy"`
+	Spy   []byte `json:"spy"`
 	Rate  uint32 `json:"rate"`
-	Units string `json:"units"`
-	Agg   string `json:"agg"`
+	Units []byte `json:"units"`
+	Agg   []byte `json:"agg"`
 }
 
 type Op struct {
@@ -36,6 +39,22 @@ type Input struct {
 }
 
 var names = []string{"", "gospy", "ebpfspy", "samples", "objects", "bytes", "sum", "average", "sp\"y", "ünïts", "a b", "x\\y"}
+
+// valid but exotic: characters encoding/json escapes, NUL, line separators, non-BMP, a genuine U+FFFD
+var exotic = []string{"<>&\"\\", "a\u2028b\u2029", "a\x00b", "\U0001F600spy", "\ufffd", "\x7f\t\n", "é\u0301ü"}
+
+// invalid UTF-8 (spy name and units arrive as URL query parameters: a client can send these)
+var invalid = []string{"go\xffspy", "un\xfeits", "\xc3", "\xe2\x82", "a\xed\xa0\x80b", "\xf4\x90\x80\x80", "\xc0\xaf", "ok\x80", "\xf0\x9f\x98"}
+
+func pickName(r *rand.Rand, class int) []byte {
+	switch class {
+	case 1:
+		return []byte(lib.Pick(r, exotic))
+	case 2:
+		return []byte(lib.Pick(r, invalid))
+	}
+	return []byte(lib.Pick(r, names))
+}
 
 func randThr(r *rand.Rand, w segu.Window) int64 {
 	x := w.Lo + r.Int63n(w.Size+1)
@@ -89,7 +108,30 @@ func gen(r *rand.Rand, idx int, tier string) Input {
 	}
 	// always end the build phase with a write so that the saved segment is non-empty
 	in.Build = append(in.Build, Op{Kind: "put", W: segu.RandWrite(r, w, 30)})
-	in.Meta = Meta{Spy: lib.Pick(r, names), Rate: uint32(r.Int63n(1 << 32)), Units: lib.Pick(r, names), Agg: lib.Pick(r, names)}
+	// metadata streams: plain (70%), valid-but-exotic control stream (20%), invalid UTF-8 (10%, known finding)
+	class := 0
+	if x := r.Intn(10); x >= 9 {
+		class = 2
+	} else if x >= 7 {
+		class = 1
+	}
+	pc := func() int { // in the exotic/invalid streams at least one field is of that class
+		if class != 0 && lib.Chance(r, 0.6) {
+			return class
+		}
+		return 0
+	}
+	in.Meta = Meta{Spy: pickName(r, pc()), Rate: uint32(r.Int63n(1 << 32)), Units: pickName(r, pc()), Agg: pickName(r, pc())}
+	if class != 0 {
+		switch r.Intn(3) {
+		case 0:
+			in.Meta.Spy = pickName(r, class)
+		case 1:
+			in.Meta.Units = pickName(r, class)
+		default:
+			in.Meta.Agg = pickName(r, class)
+		}
+	}
 	if lib.Chance(r, 0.5) {
 		in.Meta.Rate = uint32(lib.Pick(r, []int{0, 1, 100, 1000}))
 	}
@@ -170,7 +212,7 @@ func run(in Input) (res lib.Result) {
 			ncuts++
 		}
 	}
-	s0.SetMetadata(in.Meta.Spy, in.Meta.Rate, in.Meta.Units, in.Meta.Agg)
+	s0.SetMetadata(string(in.Meta.Spy), in.Meta.Rate, string(in.Meta.Units), string(in.Meta.Agg))
 	dump0 := s0.VerifDump()
 	b0, err := s0.Bytes()
 	if err != nil {
@@ -207,7 +249,19 @@ func run(in Input) (res lib.Result) {
 	e0, e1 := s0.VerifDump(), s1.VerifDump()
 	eb0, _ := s0.Bytes()
 	eb1, _ := s1.Bytes()
-	metaIn := "(" + lib.Bytes([]byte(in.Meta.Spy)) + ", " + lib.N(uint64(in.Meta.Rate)) + ", " + lib.Bytes([]byte(in.Meta.Units)) + ", " + lib.Bytes([]byte(in.Meta.Agg)) + ")"
+	metaIn := "(" + lib.Bytes(in.Meta.Spy) + ", " + lib.N(uint64(in.Meta.Rate)) + ", " + lib.Bytes(in.Meta.Units) + ", " + lib.Bytes(in.Meta.Agg) + ")"
+	metaClass := "valid-plain"
+	for _, b := range [][]byte{in.Meta.Spy, in.Meta.Units, in.Meta.Agg} {
+		if !utf8.Valid(b) {
+			metaClass = "invalid-utf8"
+			break
+		}
+		for _, c := range string(b) {
+			if c < 0x20 || c > 0x7e || c == '<' || c == '>' || c == '&' || c == '"' || c == '\\' {
+				metaClass = "valid-exotic"
+			}
+		}
+	}
 	coq := "{| d_build := " + lib.List(build) + "; d_meta := " + metaIn +
 		"; d_tree0 := " + segu.CoqTree(dump0) + "; d_bytes := " + lib.Bytes(b0) + "; d_loaded := " + lib.Bool(loaded) +
 		"; d_tree1 := " + segu.CoqTree(dump1) + "; d_meta1 := " + meta1 + "; d_rebytes := " + lib.Bytes(rb) +
@@ -217,7 +271,7 @@ func run(in Input) (res lib.Result) {
 	return lib.Result{
 		Coq:        coq,
 		NonTrivial: levels >= 3 && ncuts >= 1 && len(in.Ops) >= 3,
-		Feat:       map[string]interface{}{"levels": levels, "nodes": nodes, "cuts": ncuts, "ops": len(in.Ops), "op_kinds": kinds, "bytes": len(b0)},
+		Feat:       map[string]interface{}{"levels": levels, "nodes": nodes, "cuts": ncuts, "ops": len(in.Ops), "op_kinds": kinds, "bytes": len(b0), "meta_class": metaClass},
 		Obs:        map[string]interface{}{"bytes": len(b0), "nodes": nodes, "levels": levels},
 	}
 }
